@@ -7,7 +7,10 @@ import os, re, sys
 VERIF = os.path.dirname(os.path.dirname(os.path.abspath(__file__)))
 sys.path.insert(0, os.path.join(VERIF, "tools"))
 import vx
-IDL = "varlink-certification/src/org.varlink.certification.varlink"
+# usage: mkgencert.py [<interface definition, relative to the repository> <fragment name>]   (default: the certification interface -> frag/gencert.vrs)
+IDL = sys.argv[1] if len(sys.argv) > 2 else "varlink-certification/src/org.varlink.certification.varlink"
+FRAG = sys.argv[2] if len(sys.argv) > 2 else "gencert"
+CERT = FRAG == "gencert"
 GEN = "@gen:" + IDL
 idl_text = open(os.path.join(vx.REPO, IDL)).read()
 iface = re.search(r"^interface\s+([A-Za-z0-9.]+)", idl_text, re.M).group(1)
@@ -31,9 +34,9 @@ def ty(t):
 def field(n):
     return "r#" + n if n in ("struct", "enum", "type") else n
 
-out = '''// ===== frag/gencert.vrs -- written by tools/mkgencert.py =====
+out = '''// ===== frag/%(FRAG)s.vrs -- written by tools/mkgencert.py =====
 // C08 slice: the code the repository's generator emits (G1: regenerated from the tree under test on every run) for ONE interface definition of the
-// repository, org.varlink.certification: the server dispatch `<VarlinkInterfaceProxy as varlink::Interface>::call` and the client stubs
+// repository, %(IDL)s: the server dispatch `<VarlinkInterfaceProxy as varlink::Interface>::call` and the client stubs
 // `<VarlinkClient as VarlinkClientInterface>::*`.
 //   [C08.method-name] the trait method of the implementation that is invoked is the one whose wire name `<interface>.<Method>` is the request's method
 //   [C08.args]        it is handed exactly the values the request's parameters decode to, each in its own position
@@ -63,9 +66,7 @@ pub fn vx_format_err(e: &serde_json::Error) -> (r: String) { unimplemented!() }
 // (and the replay decides).
 //@assume_text file=%(GEN)s count=0
 serde\\s*\\(
-//@itemx file=%(GEN)s kind=struct name=Test07_Args_struct
-//@enditem
-''' % dict(GEN=GEN)
+%(CERTITEM)s''' % dict(GEN=GEN, FRAG=FRAG, IDL=IDL, CERTITEM="//@itemx file=%s kind=struct name=Test07_Args_struct\n//@enditem\n" % GEN if CERT else "")
 for fn, cm, params in methods:
     out += "//@itemx file=%s kind=struct name=%s_Args\n//@sub P4 count=*\nvarlink\\s*::\\s*\nself::\n//@enditem\n" % (GEN, cm)
     out += "impl serde_json::Decode for %s_Args { uninterp spec fn parse(b: Seq<u8>) -> Option<Self>; uninterp spec fn decode(v: Value) -> Option<Self>; }\n" % cm
@@ -225,5 +226,15 @@ GenError
 //@endfn
 ''' % dict(GEN=GEN, fn=fn, iface=iface, cm=cm, lit=lit)
 out += "}\n"
-open(os.path.join(VERIF, "frag", "gencert.vrs"), "w").write(out)
-print("wrote frag/gencert.vrs:", len(methods), "methods")
+prim = {"String", "i64", "f64", "bool", "serde_json::Value"}
+if not CERT:
+    for fn, cm, params in methods:
+        for n, t in params:
+            assert t in prim, "parameter type %s of %s is not a primitive: this instance needs its type items extracted" % (t, cm)
+out = out.replace("twinkey=gencert_call", "twinkey=%s_call" % FRAG).replace("//@twin gencert_call", "//@twin %s_call" % FRAG)
+open(os.path.join(VERIF, "frag", FRAG + ".vrs"), "w").write(out)
+unit = os.path.join(VERIF, "units", FRAG + ".vrs")
+if not os.path.exists(unit):
+    open(unit, "w").write(open(os.path.join(VERIF, "units", "gencert.vrs")).read().replace("frag/gencert.vrs", "frag/%s.vrs" % FRAG)
+                          .replace("unit `gencert`", "unit `%s`" % FRAG).replace("org.varlink.certification", iface))
+print("wrote frag/%s.vrs:" % FRAG, len(methods), "methods")
